@@ -228,6 +228,39 @@ def run(ctx):
                                 ck.ob("R22c", f"{f.path}|table index", from_small,
                                       "the table is indexed by the value of an inline small integer (NodeVisitor::U32 payload / small_number())",
                                       site=f.where(bb, st["ln"]), detail=show(ix)[:160])
+    # every function that mentions the table at all must be one whose accesses were recognised above, and any access through
+    # a method (`.get(i)`, iterators, ...) instead of plain indexing needs the same provenance
+    users = {}
+    for f in sorted(cr.fns.values(), key=lambda x: x.path):
+        if is_test_fn(f):
+            continue
+        for b in sorted(f.reachable_blocks()):
+            mention = False
+            for st in f.stmts(b):
+                ops = mir.rvalue_operands(st["rv"]) if "rv" in st else []
+                if any(isinstance(o, dict) and "c" in o and o["c"].get("bytes") == tbl.get("bytes") for o in ops):
+                    mention = True
+            t = f.term(b)
+            if t["k"] == "call" and any(isinstance(o, dict) and "c" in o and o["c"].get("bytes") == tbl.get("bytes") for o in t["args"]):
+                mention = True
+            if mention:
+                users.setdefault(f.path, []).append(b)
+        for b, t in f.calls():
+            c = t.get("callee") or ""
+            if not t["args"]:
+                continue
+            a0 = show(f.expr_op(t["args"][0]))
+            if tbl.get("bytes") and ("b'" + tbl["bytes"][:16]) in a0 and not c.endswith(("::len", "::as_slice")) and "Index" not in c:
+                ix = f.expr_op(t["args"][1]) if len(t["args"]) > 1 else None
+                from_small = ix is not None and any((x[0] == "downcast" and x[2] == "U32") or (x[0] == "call" and x[1].endswith("::small_number")) for x in walk(ix))
+                n_ix += 1
+                ck.ob("R22c", f"{f.path}|table access via {c.split('::')[-1]}", from_small,
+                      "the table is accessed with the value of an inline small integer (NodeVisitor::U32 payload / small_number())",
+                      site=f.where(b), detail=show(ix)[:160] if ix is not None else c)
+    want_users = {"treehash::tree_hash_costed", "more_ops::op_sha256"}
+    ck.ob("R22c", "more_ops::PRECOMPUTED_HASHES|users", set(users) <= want_users,
+          "only the two audited functions use the precomputed table (it maps integer VALUES to hashes, not bytes)",
+          detail=sorted(users))
     ck.floor("precomputed-table index sites", n_ix, 2)
 
     # ---------------------------------------------------------------- R22d
